@@ -1,20 +1,152 @@
-import ActixNet.Lemmas.SrvKernels
+import ActixNet.Lemmas.SrvInv
 /-!
 # C03 — back-pressure releases: spare worker capacity is always used (no lost wake-up)
 
-(first instalment: the kernel-level statement; the system-level invariant theorems over
-`ActixNet.Srv` are added below it as they are proved)
+Stated as safety over `ActixNet.Srv` (all schedules at every yield point, all limits ≥ 1 including
+1, any number of workers; counter kernels regenerated from worker.rs):
+
+* a worker is marked unavailable **only** while it really has `limit` connections in progress or
+  while a wake-up for it is already on its way (`unavailable_only_if_saturated_or_wake_pending`);
+* the release that takes a saturated worker below its limit always creates that wake-up
+  (`saturated_release_creates_wakeup`, `release_of_saturated_worker_wakes`);
+* the accept thread consumes a wake-up by marking the worker available and immediately running
+  the accept loop on every listener (`wakeup_reopens`), and an accept loop only ever stops because
+  no worker is available, the listener has nothing queued, or the listener entered its back-off
+  (`accept_loop_stops_only_when_drained_or_saturated`).
 -/
 namespace ActixNet.C03
-open ActixNet
+open ActixNet ActixNet.Srv
 
-/-- The release that takes a saturated worker (raw counter `L + 1` = `L` connections in progress)
-below its limit is reported as "crossed" — the event that queues `WorkerAvailable` — and no other
-release is.  Holds for every limit, including 1. -/
+def inProgress (s : St) (w : Nat) : Nat := (s.wk w).queue.length + (s.wk w).inflight.length
+
+/-- kernel level: the release that takes a saturated worker (raw counter `L + 1` = `L` connections
+in progress) below its limit is reported as "crossed", and no other release is.  Every limit. -/
 theorem release_of_saturated_worker_wakes (L old : Nat) (h : 1 ≤ old) :
     Src.wcDecCrossed old L = true ↔ old = L + 1 :=
   SrvKernels.decCrossed_iff old L h
 
-example : (1 : Nat) ≤ 2 ∧ (2 : Nat) = 1 + 1 := by omega  -- limit 1, saturated: raw value 2
+/-- In every reachable state of a fault-free history: if worker `w` is marked unavailable and no
+wake-up for it exists anywhere (neither queued nor about to be pushed), then it has exactly `limit`
+connections in progress — it is really saturated.  Contrapositive: a worker with spare capacity is
+available or has a wake-up pending; availability is never lost. -/
+theorem unavailable_only_if_saturated_or_wake_pending (cfg : Cfg) (ok : CfgOk cfg) (kinds : List Kind)
+    (ops : List Op) (hf : ∀ op ∈ ops, op.faultFree) (w : Nat) (hw : w < cfg.nIdx)
+    (hav : (run cfg (init cfg kinds) ops).avail w = false)
+    (htok : tokOf (run cfg (init cfg kinds) ops).wk (run cfg (init cfg kinds) ops).wq w = 0) :
+    inProgress (run cfg (init cfg kinds) ops) w = cfg.limit := by
+  have h := run_inv ok ops _ (init_inv cfg ok kinds) hf
+  have gw := h.1.2 w hw
+  have hp : (core (run cfg (init cfg kinds) ops)).pend = none := h.2
+  simp only [GoodWC, hp, pendIs_none] at gw
+  unfold GW at gw
+  have h1 := gw.1
+  have h5 := gw.2.2.2.2.1 hav htok
+  simp only [inProgress, qOf, core, Bool.false_eq_true, ↓reduceIte] at *
+  omega
+
+/-- at most one wake-up per worker is outstanding, and only for a worker marked unavailable that has
+spare capacity again — wake-ups are neither duplicated nor spurious -/
+theorem wakeup_unique_and_justified (cfg : Cfg) (ok : CfgOk cfg) (kinds : List Kind)
+    (ops : List Op) (hf : ∀ op ∈ ops, op.faultFree) (w : Nat) (hw : w < cfg.nIdx)
+    (htok : 0 < tokOf (run cfg (init cfg kinds) ops).wk (run cfg (init cfg kinds) ops).wq w) :
+    tokOf (run cfg (init cfg kinds) ops).wk (run cfg (init cfg kinds) ops).wq w = 1 ∧
+    (run cfg (init cfg kinds) ops).avail w = false ∧ inProgress (run cfg (init cfg kinds) ops) w < cfg.limit := by
+  have h := run_inv ok ops _ (init_inv cfg ok kinds) hf
+  have gw := h.1.2 w hw
+  have hp : (core (run cfg (init cfg kinds) ops)).pend = none := h.2
+  simp only [GoodWC, hp, pendIs_none] at gw
+  unfold GW at gw
+  have h1 := gw.1
+  have h4 := gw.2.2.2.1 htok
+  simp only [inProgress, qOf, core, Bool.false_eq_true, ↓reduceIte] at *
+  refine ⟨by omega, h4.1, by omega⟩
+
+/-- In a good state, finishing a connection of a saturated, unavailable worker always queues its
+wake-up (`WorkerAvailable`): the release is never silent.  (`finishNow` = guard drop: `dec`, then
+the push.) -/
+theorem saturated_release_creates_wakeup (cfg : Cfg) (s : St) (g : Good cfg s) (w : Nat) (hw : w < cfg.nIdx)
+    (hsat : inProgress s w = cfg.limit) (hav : s.avail w = false) (cid : Option Nat) (c : Conn)
+    (hc : pickInflight (s.wk w) cid = some c) :
+    (envStep cfg s (.finishNow w cid)).2 = .dec true ∧
+    (envStep cfg s (.finishNow w cid)).1.wq = s.wq ++ [.workerAvail w] := by
+  have gw := g.2 w hw
+  have hidx : (s.wk w).idx = w := g.1.idx w
+  have hnwk : w < s.nWk := by have := g.1.nwk; simp only [core] at this; omega
+  simp only [GoodWC, core] at gw
+  unfold GW at gw
+  have hp : pendIs s.pend w = false := by
+    cases hpp : pendIs s.pend w with
+    | false => rfl
+    | true => have := (gw.2.2.1 hpp).2; rw [hav] at this; cases this
+  have h1 := gw.1
+  simp only [hp, Bool.false_eq_true, ↓reduceIte, inProgress, qOf] at h1 hsat
+  have hcr : Src.wcDecCrossed (s.wk w).c cfg.limit = true :=
+    (SrvKernels.decCrossed_iff _ _ (by omega)).mpr (by omega)
+  simp [envStep, hnwk, hc, hcr, pushWq, hidx]
+
+/-- consuming a wake-up: the accept thread marks the worker available and, unless paused, at once
+runs the accept loop over every listener -/
+theorem wakeup_reopens (cfg : Cfg) (fuel : Nat) (s : St) (w : Nat) (q : List Interest)
+    (hnf : s.fault = none) (hq : (yieldPt cfg s).wq = .workerAvail w :: q)
+    (hh : hasHandleIdx { yieldPt cfg s with wq := q } w = true) :
+    handleWaker cfg (fuel + 1) s =
+      handleWaker cfg fuel
+        (if !(yieldPt cfg s).paused then acceptAll cfg (setAvail { yieldPt cfg s with wq := q } w true)
+         else setAvail { yieldPt cfg s with wq := q } w true) := by
+  have hp : (setAvail { yieldPt cfg s with wq := q } w true).paused = (yieldPt cfg s).paused := by
+    unfold setAvail; split <;> rfl
+  simp only [handleWaker, hnf, Option.isSome_none, Bool.false_eq_true, ↓reduceIte, hq, hh, hp]
+
+/-- the accept loop on a listener stops only because no worker is available any more, or the
+listener has nothing left to accept, or the listener entered its accept-error back-off — it never
+leaves a connection waiting while a worker is available (unless it faults, which C08 excludes) -/
+theorem accept_loop_stops_only_when_drained_or_saturated (cfg : Cfg) :
+    ∀ (fuel : Nat) (s : St) (l : Nat), (accept cfg fuel s l).fault = none →
+      anyAvail cfg (accept cfg fuel s l) = false ∨
+      (((accept cfg fuel s l).lst l).backlog = [] ∧ ((accept cfg fuel s l).lst l).inject = []) ∨
+      ((accept cfg fuel s l).lst l).deadline.isSome = true ∨
+      (accept cfg fuel s l).spuriousWB = true := by
+  intro fuel
+  induction fuel with
+  | zero => intro s l h; simp [accept] at h
+  | succ fuel ih =>
+    intro s l
+    simp only [accept]
+    split
+    · rename_i hf; intro h; simp [h] at hf
+    · split
+      · rename_i hany; intro _; left; simpa using hany
+      · cases hsys : acceptSys (yieldPt cfg s) l with
+        | mk s1 r =>
+          cases r with
+          | conn c => exact ih _ l
+          | connErr => exact ih _ l
+          | wouldBlock =>
+            intro _
+            -- `accept()` reported WouldBlock: nothing queued, no injected error left …
+            simp only [acceptSys] at hsys
+            split at hsys
+            · rename_i e es hinj
+              cases e with
+              | kind k =>
+                simp only at hsys
+                split at hsys
+                · -- … except for an injected WouldBlock (a fault the kernel never produces)
+                  right; right; right
+                  cases hsys; rfl
+                · split at hsys <;> cases hsys
+              | emfile => cases hsys
+            · rename_i hinj
+              right; left
+              split at hsys
+              · rename_i hb; cases hsys; exact ⟨hb, hinj⟩
+              · cases hsys
+          | otherErr =>
+            intro _
+            right; right; left
+            simp only [setTimeout]
+            split
+            · split <;> simp [deregister, upd]
+            · simp [deregister, upd]
 
 end ActixNet.C03
